@@ -162,8 +162,12 @@ def correspond(rng, tier, driver):
 
     batch = []
     for b, srng in case_stream(rng, tier):
-        code, nb = tc.render(b, tc.Style(srng))
-        batch.append((b, code, nb, tc.run_real(code)))
+        style = tc.Style(srng)
+        code, nb = tc.render(b, style)
+        variant = srng.choice([0, 0, 0, 1, 2, 3]) if srng is not None else 0
+        res.count("call-variant:%d" % variant)
+        res.count("eol:%r names:%s" % (style.eol, "ascii" if style.names is tc.NAMES else "non-ascii"))
+        batch.append((b, code, nb, tc.run_real(code, style.names, variant)))
         if len(samples) < 5:
             samples.append(code)
         if len(batch) >= 4000:
@@ -189,8 +193,9 @@ def search(rng, tier, broken, corr):
     for i in range(extra):
         kinds = [("if",), ("if", "wh"), ("wh", "for", "if")][i % 3]
         b = tc.gen_pattern(rng, kinds) if i % 2 else tc.gen_case(rng, kinds=kinds)
-        code, nb = tc.render(b, tc.Style(rng))
-        sink.consider(b, code, nb, tc.run_real(code))
+        style = tc.Style(rng)
+        code, nb = tc.render(b, style)
+        sink.consider(b, code, nb, tc.run_real(code, style.names, rng.choice([0, 1, 2, 3])))
     failures = []
     for key, (sig, what, b) in sink.first.items():
         def still(bb):
